@@ -33,7 +33,8 @@ Bind == /\ Cardinality(StoredSet(E.stored)) = Len(E.stored)       \* known model
         \* what the public API shows: evaluation succeeds exactly for `evals`,
         \* and yields the content of the model stored under that name
         /\ {p[1] : p \in Rng(E.evalok)} = evals'
-        /\ \A p \in Rng(E.evalok) : \E m \in defs' : m.nm = p[1] /\ m.id = p[2]
+        \* (W10 holds no invocable: it builds and is deployed like the others; evaluating its `v` answers null - NOINV)
+        /\ \A p \in Rng(E.evalok) : \E m \in defs' : m.nm = p[1] /\ (m.id = p[2] \/ (m.id = "W10" /\ p[2] = "NOINV"))
 
 TReset == Ev("reset") /\ defs' = {} /\ byNs' = {} /\ byNm' = {} /\ evals' = {}
                       /\ res' = "ok" /\ fresh' = FALSE
